@@ -151,76 +151,32 @@ func intExpr(f *hc.Facts, e ast.Expr) (int64, bool) {
 	return 0, false
 }
 
+// pqFacts: the size of the random words drawn by DecomposePQ (`rndMax = 1 << 64`); everything else of the
+// function is translated by pqtr.go.
 func pqFacts(f *hc.Facts) {
 	fd := f.FuncDecl("crypto", "DecomposePQ")
-	if fd == nil || fd.Body == nil {
-		f.Missing("pqMask", "crypto.DecomposePQ not found")
-		return
-	}
-	newInt := map[string]string{}
-	rndBits, limShift := "", ""
-	var vAnd, vAdd string
-	ast.Inspect(fd.Body, func(n ast.Node) bool {
-		switch x := n.(type) {
-		case *ast.ValueSpec:
-			for i, id := range x.Names {
-				if i >= len(x.Values) {
-					continue
-				}
-				if a, ok := callNamed(x.Values[i], "NewInt"); ok && len(a) == 1 {
-					if v, ok := lit(a[0]); ok {
-						newInt[id.Name] = v
-					}
-				}
-				if a, ok := callNamed(x.Values[i], "SetBit"); ok && len(a) == 3 && id.Name == "rndMax" {
-					if v, ok := lit(a[1]); ok && f.Src(a[2]) == "1" {
-						rndBits = v
-					}
-				}
-			}
-		case *ast.AssignStmt:
-			if len(x.Lhs) == 1 && len(x.Rhs) == 1 {
-				if isIdent(x.Lhs[0], "lim") {
-					// 1 << (uint(i) + K)
-					if sh, ok := x.Rhs[0].(*ast.BinaryExpr); ok && sh.Op == token.SHL && f.Src(sh.X) == "1" {
-						if p, ok := sh.Y.(*ast.ParenExpr); ok {
-							if add, ok := p.X.(*ast.BinaryExpr); ok && add.Op == token.ADD && f.Src(add.X) == "uint(i)" {
-								if v, ok := lit(add.Y); ok {
-									limShift = v
-								}
+	rndBits := ""
+	if fd != nil && fd.Body != nil {
+		ast.Inspect(fd.Body, func(n ast.Node) bool {
+			if x, ok := n.(*ast.ValueSpec); ok {
+				for i, id := range x.Names {
+					if i < len(x.Values) && id.Name == "rndMax" {
+						if a, ok := callNamed(x.Values[i], "SetBit"); ok && len(a) == 3 {
+							if v, ok := lit(a[1]); ok && f.Src(a[2]) == "1" {
+								rndBits = v
 							}
 						}
 					}
 				}
-				if isIdent(x.Lhs[0], "v") {
-					if a, ok := callNamed(x.Rhs[0], "And"); ok && len(a) == 2 {
-						if id, ok := a[1].(*ast.Ident); ok {
-							vAnd = id.Name
-						}
-					}
-					if a, ok := callNamed(x.Rhs[0], "Add"); ok && len(a) == 2 {
-						if id, ok := a[1].(*ast.Ident); ok {
-							vAdd = id.Name
-						}
-					}
-				}
 			}
-		}
-		return true
-	})
-	emit := func(lean, val, what string) {
-		if val == "" {
-			f.Missing(lean, what+" not found in crypto.DecomposePQ")
-			return
-		}
-		f.Raw(fmt.Sprintf("def %s : Nat := %s -- crypto.DecomposePQ: %s", lean, val, what))
+			return true
+		})
 	}
-	emit("pqMask", newInt[vAnd], "v.And(v, "+vAnd+")")
-	emit("pqAdd", newInt[vAdd], "v.Add(v, "+vAdd+")")
-	emit("pqRndBits", rndBits, "rndMax = 1 << bits")
-	emit("pqLimShift", limShift, "lim := 1 << (uint(i) + shift)")
-	emit("pqValue0", newInt["value0"], "value0")
-	emit("pqValue1", newInt["value1"], "value1")
+	if rndBits == "" {
+		f.Missing("pqRndBits", "rndMax = big.NewInt(0).SetBit(big.NewInt(0), bits, 1) not found in crypto.DecomposePQ")
+		return
+	}
+	f.Raw("def pqRndBits : Nat := " + rndBits + " -- crypto.DecomposePQ: rndMax = 1 << bits")
 }
 
 func facts(f *hc.Facts) {
@@ -261,6 +217,7 @@ func facts(f *hc.Facts) {
 	tr := &bigTr{f: f, fns: map[string]string{}}
 	tr.translate("inRangeT", "InRange")
 	tr.translate("checkDHParamsT", "CheckDHParams")
+	pqTranslate(f)
 }
 
 // ---------------------------------------------------------------------------------------------
